@@ -26,6 +26,7 @@ func TestC17(t *testing.T) {
 	st := StatsFor("C17")
 	rapid.Check(t, func(t *rapid.T) {
 		v := NewVestWorld([]VType{{Name: "vt0", Free18: "0", LockupNs: 0, VestNs: 100 * dayNs}, {Name: "vt1", Free18: "250000000000000000", LockupNs: dayNs, VestNs: 30 * dayNs}})
+		v.Tx = DrawTxMode(t)
 		k := v.App.CfevestingKeeper
 		nowS := nsTime(v.NowNs).Unix()
 		model := map[string]*linAcc{}
@@ -376,7 +377,7 @@ func TestC17(t *testing.T) {
 		if upperSeen {
 			cl = append(cl, "recipient_spelled_in_upper_case")
 		}
-		st.Case(nt, map[string]interface{}{"history": hist}, cl...)
+		st.Case(nt, map[string]interface{}{"history": hist}, append(cl, v.TxClasses()...)...)
 	})
 }
 
